@@ -147,6 +147,11 @@ def make_judge(meters):
                 envtag = "hashseed=%s/threads=%s" % (p["env"]["hashseed"], p["env"]["threads"])
                 # which dimensions differ from the reference environment (hash seed 0, thread variables unset)
                 dims = "+".join(x for x, on in (("hashseed", p["env"]["hashseed"] != "0"), ("threads", p["env"]["threads"] != "unset")) if on) or "same-env"
+                if r.get("error"):
+                    if not r.get("lib") or ref[n].get("error"):
+                        raise RuntimeError("C03 worker could not fit %s: %s (reference: %s)" % (n, r["error"], ref[n].get("error")))
+                    rec.violation("%s/fit-raises-in-schedule/%s" % (fam, dims), c, "meter %s: %s in this schedule (%s); the fresh-process reference fits" % (n, r["error"], envtag))
+                    continue
                 if r.get("at_end"):
                     if r["model"] != ref[n]["model"]:
                         rec.violation("%s/model-at-end-digest-differs/%s" % (fam, dims), c,
